@@ -279,7 +279,42 @@ def witness(ctx, name, spec, cfg, expect, build, workers=1):
 MGR_CONSTS = {"peers1": ["p1"], "peers2": ["p1", "p2"], "chain": ["h1", "h2"], "first": 11}
 
 
+def run_replay(ctx):
+    """bin/check C17 --replay <file>: re-execute the recorded scenario of a violation on the current tree"""
+    rec = json.load(open(ctx.replay))
+    obj = rec.get("replay") or {}
+    kind = obj.get("kind")
+    plan = {}
+    if kind == "pool-atomic-path":
+        plan["pool"] = {"ttl": obj["ttl"], "cleanup": obj["cleanup"], "slots": ["t1", "t2"], "paths": [obj["path"]]}
+    elif kind == "pool-witness":
+        plan["witness"] = [obj["scenario"]]
+    elif kind == "pool-fine-trace":
+        plan["fine"] = [obj["scenario"]]
+    elif kind in ("manager-walk", "manager-witness", "manager-random-walk"):
+        plan["mwitness"] = [{"name": "replay", "peers": obj["peers"], "hashes": obj["hashes"], "nocompare": True,
+                             "enable_blacklisting": obj.get("enable_blacklisting", True),
+                             "steps": [{"a": a} for a in obj["actions"]]}]
+    elif kind == "pool-stress":
+        sp = dict(obj["plan"])
+        sp["out"] = os.path.join(ctx.work, "pool_trace.ndjson")
+        plan["stress"] = sp
+    else:
+        ctx.inconclusive("replay file %s has no scenario this check can re-execute (kind=%s)" % (ctx.replay, kind))
+        return
+    plan_path = os.path.join(ctx.work, "plan.json")
+    json.dump(plan, open(plan_path, "w"))
+    env = {"VERIF_PLAN": plan_path}
+    if rec.get("seed") is not None:
+        env["VERIF_SEED"] = rec["seed"]
+    rep = ctx.go_driver("peers", env=env, timeout=1200)
+    ctx.cover(evaluations=1, replayed=kind)
+    ctx.sample({"replayed": kind, "violations": [v.get("signature") for v in rep.get("violations", [])]})
+
+
 def run(ctx):
+    if ctx.replay:
+        return run_replay(ctx)
     quick = ctx.quick
     rng = random.Random(ctx.seed)
     plan = {}
@@ -306,7 +341,7 @@ def run(ctx):
         # 5. the manager as it is / without the black-list fix / simulated behaviours for the replay
         "mgr": lambda: ctx.tlc("peers/MCManager.tla", mgr_cfg, timeout=2400, workers=max(2, W // 4)),
         "mgrorig": lambda: witness(ctx, "blacklisted", "peers/MCManager.tla", "peers/ManagerOrig.cfg", ("BlacklistedNeverOffered",), build_blacklisted),
-        "mgrsim": lambda: ctx.tlc("peers/MCManager.tla", "peers/ManagerSim.cfg", count=False, timeout=900, workers=1, deadlock=False,
+        "mgrsim": lambda: ctx.tlc("peers/MCManager.tla", "peers/ManagerSim.cfg", count=False, timeout=2400, workers=1, deadlock=False,
                                   simulate="num=%d" % (120 if quick else 1500), depth=16, seed=ctx.seed),
         "build": lambda: warm_build(ctx),
     }
